@@ -1,1 +1,3 @@
 import QsProofs.Inst
+import QsProofs.Lemmas.Position
+import QsProofs.Props.C03
